@@ -394,7 +394,7 @@ func (w *World) checkNumericBuiltins(P string, f *Facts, r *Roles) {
 	if fn := single("round"); fn != nil {
 		w.checkRound(P, fn)
 	}
-	w.floor(P, "R06.4", 4)
+	w.floorSites(P, "R06.4", 4)
 	w.floor(P, "R06.6", 2)
 }
 
